@@ -398,6 +398,18 @@ func ruleTabMunch(c *Ctx, r *R) {
 	}
 	// symChars constant
 	var symChars string
+	for _, f := range c.Pkg.Syntax {
+		ast.Inspect(f, func(n ast.Node) bool {
+			if vs, ok := n.(*ast.ValueSpec); ok {
+				for i, id := range vs.Names {
+					if id.Name == "symChars" && i < len(vs.Values) {
+						symChars, _ = c.ConstString(vs.Values[i])
+					}
+				}
+			}
+			return true
+		})
+	}
 	ast.Inspect(fd.Body, func(n ast.Node) bool {
 		if vs, ok := n.(*ast.ValueSpec); ok {
 			for i, id := range vs.Names {
@@ -455,31 +467,33 @@ func ruleTabMunch(c *Ctx, r *R) {
 	}
 	// the tokenizer consults `symbols` for the 2- and the 3-character candidate (or loops)
 	lookups := 0
-	concat := map[types.Object]bool{} // string variables defined as a concatenation
-	ast.Inspect(fd.Body, func(n ast.Node) bool {
-		if as, ok := n.(*ast.AssignStmt); ok && len(as.Lhs) == len(as.Rhs) {
-			for i, l := range as.Lhs {
-				if id, ok := l.(*ast.Ident); ok {
-					if be, ok := unparen(as.Rhs[i]).(*ast.BinaryExpr); ok && be.Op == token.ADD {
-						concat[c.Obj(id)] = true
+	for _, hfd := range c.withHelpers(fd) {
+		concat := map[types.Object]bool{} // string variables defined as a concatenation
+		ast.Inspect(hfd.Body, func(n ast.Node) bool {
+			if as, ok := n.(*ast.AssignStmt); ok && len(as.Lhs) == len(as.Rhs) {
+				for i, l := range as.Lhs {
+					if id, ok := l.(*ast.Ident); ok {
+						if be, ok := unparen(as.Rhs[i]).(*ast.BinaryExpr); ok && be.Op == token.ADD {
+							concat[c.Obj(id)] = true
+						}
 					}
 				}
 			}
-		}
-		return true
-	})
-	ast.Inspect(fd.Body, func(n ast.Node) bool {
-		if ix, ok := n.(*ast.IndexExpr); ok {
-			if id, ok := unparen(ix.X).(*ast.Ident); ok && id.Name == "symbols" {
-				if id2, ok := unparen(ix.Index).(*ast.Ident); ok && concat[c.Obj(id2)] {
-					lookups++
-				} else if be, ok := unparen(ix.Index).(*ast.BinaryExpr); ok && be.Op == token.ADD {
-					lookups++
+			return true
+		})
+		ast.Inspect(hfd.Body, func(n ast.Node) bool {
+			if ix, ok := n.(*ast.IndexExpr); ok {
+				if id, ok := unparen(ix.X).(*ast.Ident); ok && id.Name == "symbols" {
+					if id2, ok := unparen(ix.Index).(*ast.Ident); ok && concat[c.Obj(id2)] {
+						lookups++
+					} else if be, ok := unparen(ix.Index).(*ast.BinaryExpr); ok && be.Op == token.ADD {
+						lookups++
+					}
 				}
 			}
-		}
-		return true
-	})
+			return true
+		})
+	}
 	r.check(lookups >= 2, "munch-lookups", c.Pos(fd), fmt.Sprintf("%d multi-character lookups into symbols", lookups),
 		"tokenize consults `symbols` for fewer than two multi-character candidates: 2- or 3-character operators are no longer recognised")
 }
